@@ -57,7 +57,8 @@ POOL: List[J] = [
     dop("u8mask", dct_std("A_UINT32", 8, mask=0x3C)),
     {"t": "DTCDOP", "name": "dtc", "dct": dct_std("A_UINT32", 24), "ptype": "A_UINT32",
      "compu": {"cat": "IDENTICAL"},
-     "dtcs": [{"name": "P0001", "code": 0x000001, "text": "one"},
+     "dtcs": [{"name": "P0000", "code": 0x000000, "text": "zero"},  # a code like any other
+              {"name": "P0001", "code": 0x000001, "text": "one"},
               {"name": "P0123", "code": 0x012345, "text": "two"},
               {"name": "U1000", "code": 0xC10000, "text": "three"}]},
     # inherits P0001/U1000 from "dtc" (P0123 excluded), adds one of its own
@@ -413,6 +414,13 @@ def probe_layer() -> J:
                            p_value("after", "u8"),
                            {"p": "RESERVED", "name": "rsv2", "byte": None, "bit": 6, "bits": 3},
                            p_value("after2", "u16")], "reserved-bits-crossing")
+    # reserved areas wider than any number (padding): in the middle and at the end of a message
+    rq("p_reserved_wide", [sid(), p_value("a", "u8"),
+                           {"p": "RESERVED", "name": "pad", "byte": None, "bit": None, "bits": 72},
+                           p_value("b", "u16")], "reserved-wide")
+    rq("p_reserved_wide_last", [sid(), p_value("a", "u8"),
+                                {"p": "RESERVED", "name": "pad", "byte": None, "bit": None, "bits": 128}],
+       "reserved-wide-last")
     # tables with non-integer keys
     dobjs.append({"t": "TABLE", "name": "tab_str", "key_dop": "a3", "semantic": "X",
                   "rows": [{"name": "r_abc", "key": "abc", "struct": "st_c2"},
